@@ -208,6 +208,153 @@ pub fn run_neg(c: &NegCase) -> CaseResult {
     Ok(if both_plain { 1 } else { 2 })
 }
 
+// ---------- (b2) what the configuration says: plain needs an explicit word on BOTH ends ----------
+
+/// Cipher lists as a user may write them (documented names in any case, documented aliases, near misses, unknown
+/// words, empty strings). A node may refuse to start; if both start and connect, payload is sealed unless BOTH lists
+/// contain one of the documented words for unencrypted operation.
+pub fn run_names(c: &NegCase) -> CaseResult {
+    let ar: Vec<&str> = c.a.iter().map(|s| s.as_str()).collect();
+    let br: Vec<&str> = c.b.iter().map(|s| s.as_str()).collect();
+    let explicit = |l: &Vec<String>| l.iter().any(|n| ["PLAIN", "NONE", "UNENCRYPTED"].contains(&n.to_uppercase().as_str()));
+    let (ca, cb) = match (mk_crypto(node_id(1), &cfg_with_key(0, &[0], &ar), [100.0, 90.0, 80.0]), mk_crypto(node_id(2), &cfg_with_key(0, &[0], &br), [100.0, 90.0, 80.0])) {
+        (Ok(a), Ok(b)) => (a, b),
+        _ => return Ok(0), // refused to start
+    };
+    let pa = pattern(40, 7);
+    let pb = pattern(40, 9);
+    let mut a: PeerCrypto<Blob> = ca.peer_instance(Blob(pa.clone()));
+    let mut b: PeerCrypto<Blob> = cb.peer_instance(Blob(pb.clone()));
+    let out = handshake(&mut a, &mut b);
+    if out.a_done.is_none() || out.b_done.is_none() {
+        if out.a_done.is_some() != out.b_done.is_some() {
+            return Err(Fail::new("half_open", format!("{:?} / {:?}: one end completed, the other did not", c.a, c.b)));
+        }
+        return Ok(1);
+    }
+    let both = explicit(&c.a) && explicit(&c.b);
+    let plain = a.algorithm_name() == "PLAIN" || b.algorithm_name() == "PLAIN";
+    if plain && !both {
+        return Err(Fail::new("plain_without_consent", format!("lists {:?} / {:?} run unencrypted although not both contain a word for it", c.a, c.b))
+            .with("a_explicit", explicit(&c.a))
+            .with("b_explicit", explicit(&c.b)));
+    }
+    let p = pattern(100, 3);
+    for dir in [true, false] {
+        let r = if dir { probe(&mut a, &mut b, 0, &p) } else { probe(&mut b, &mut a, 0, &p) };
+        let (_, got, wire) = r.map_err(|e| Fail::new("probe_failed", e))?;
+        if got != p {
+            return Err(Fail::new("payload_mismatch", "round trip changed the payload"));
+        }
+        if !both && contains_window(&wire, &p) {
+            return Err(Fail::new("cleartext_on_wire", format!("lists {:?} / {:?}: payload readable on the wire", c.a, c.b)));
+        }
+    }
+    Ok(if plain { 2 } else { 3 })
+}
+
+pub fn name_cases() -> Vec<NegCase> {
+    let vocab = ["aes128", "AES256", "chacha20", "plain", "NONE", "Unencrypted", "chacha20-poly1305", "aes-256", "aes", "des", "", "plain "];
+    let mut lists: Vec<Vec<String>> = vec![vec![]];
+    for a in vocab {
+        lists.push(vec![a.to_string()]);
+        for b in vocab {
+            lists.push(vec![a.to_string(), b.to_string()]);
+        }
+    }
+    let others: Vec<Vec<String>> = vec![vec![], vec!["plain".into()], vec!["plain".into(), "aes128".into()], vec!["aes256".into()]];
+    let mut v = vec![];
+    for a in &lists {
+        for b in others.iter().chain(std::iter::once(a)) {
+            v.push(NegCase { a: a.clone(), b: b.clone() });
+            v.push(NegCase { a: b.clone(), b: a.clone() });
+        }
+    }
+    v
+}
+
+// ---------- (b3) sealed for a connection that was superseded on the same address ----------
+
+#[derive(Serialize, Deserialize, Clone, Debug)]
+pub struct SupersededCase {
+    /// seconds of normal operation of the first connection
+    pub age: i64,
+    /// the process on the peer's address restarts (new node id) or the same process re-dials (same node id)
+    pub same_node_id: bool,
+    /// seconds after the second handshake at which the old session's datagram arrives
+    pub late: i64,
+}
+
+/// A real router node and a scripted peer S on one address; S is replaced by S2 (fresh handshake from the same
+/// address). What the OLD session seals afterwards must not reach the interface; the NEW session carries payload both ways.
+pub fn run_superseded(c: &SupersededCase) -> CaseResult {
+    use crate::{messages::MESSAGE_TYPE_DATA, payload::Packet, types::Range};
+    let mut cfg = base_config(Mode::Router, Type::Tun, 0, &[0]);
+    cfg.claims = vec!["10.200.0.0/16".to_string()];
+    cfg.peer_timeout = 300;
+    let mut net = Net::<Packet>::new();
+    net.add_node(&cfg, false);
+    let claim = |a: u8| {
+        let mut data = [0u8; 16];
+        data[..4].copy_from_slice(&[10, a, 0, 0]);
+        vec![Range { base: crate::types::Address { data, len: 4 }, prefix_len: 16 }]
+    };
+    let mut s = Scripted::new(50, 50, 0, &[0], &claim(50), Some(300));
+    if !s.connect(&mut net, 0) {
+        return Err(Fail::new("harness", "scripted peer could not connect"));
+    }
+    let second = |net: &mut Net<Packet>, s: &mut Scripted| {
+        net.tick();
+        s.pump(net);
+        s.tick(net, 0);
+        s.pump(net);
+        net.pop_frames(0);
+    };
+    for _ in 0..c.age {
+        second(&mut net, &mut s);
+    }
+    let old_payload = ipv4_packet([10, 50, 0, 1], [10, 200, 0, 1], b"old-session-payload-0123456789");
+    s.send(&mut net, 0, MESSAGE_TYPE_DATA, &old_payload);
+    if net.pop_frames(0) != vec![old_payload.clone()] {
+        return Err(Fail::new("harness", "payload of the first connection was not delivered"));
+    }
+    let mut s2 = Scripted::new(50, if c.same_node_id { 50 } else { 51 }, 0, &[0], &claim(51), Some(300));
+    if !s2.connect(&mut net, 0) {
+        return Err(Fail::new("reconnect_rejected", "a fresh handshake from the address of an existing peer was not accepted").with("same_node_id", c.same_node_id));
+    }
+    for _ in 0..c.late {
+        second(&mut net, &mut s2);
+    }
+    // (1) sealed for the superseded connection: dropped
+    let stale = ipv4_packet([10, 50, 0, 1], [10, 200, 0, 2], b"sealed-for-the-superseded-connection");
+    s.send(&mut net, 0, MESSAGE_TYPE_DATA, &stale);
+    let got = net.pop_frames(0);
+    if !got.is_empty() {
+        return Err(Fail::new("superseded_session_delivered", format!("a datagram sealed with the keys of the superseded connection reached the interface ({} frame(s))", got.len())).with("same_node_id", c.same_node_id));
+    }
+    // (2) the new connection delivers, byte-identical, both ways
+    let fresh = ipv4_packet([10, 51, 0, 1], [10, 200, 0, 3], b"new-session-payload-abcdefghij");
+    s2.send(&mut net, 0, MESSAGE_TYPE_DATA, &fresh);
+    let got = net.pop_frames(0);
+    if got != vec![fresh.clone()] {
+        return Err(Fail::new("new_session_lost", format!("payload sealed by the new connection: {} frame(s) delivered", got.len())).with("same_node_id", c.same_node_id).with("direction", "to_node"));
+    }
+    let back = ipv4_packet([10, 200, 0, 1], [10, 51, 0, 9], b"reply-over-the-new-session-klmnop");
+    net.queue.clear();
+    s2.received.clear();
+    net.put_frame(0, back.clone()).map_err(|e| Fail::new("send_error", format!("{}", e)))?;
+    for w in net.queue.iter() {
+        if contains_window(&w.data, &back[20..]) {
+            return Err(Fail::new("cleartext_on_wire", "payload readable on the wire"));
+        }
+    }
+    s2.pump(&mut net);
+    if !s2.received.iter().any(|(t, d)| *t == MESSAGE_TYPE_DATA && d == &back) {
+        return Err(Fail::new("new_session_lost", "what the node seals for the re-connected peer does not open with the new connection's keys").with("same_node_id", c.same_node_id).with("direction", "from_node"));
+    }
+    Ok(1)
+}
+
 // ---------- (c) meshes ----------
 
 #[derive(Serialize, Deserialize, Clone, Debug)]
@@ -448,6 +595,16 @@ pub fn run(ctx: &Ctx) {
         }
     }
     sweep_list(ctx, "negotiated", &negs, SweepOpts { chunk: 2, trivial_classes: vec![0], ..Default::default() }, run_neg);
+    let mut sup = vec![];
+    for age in [0i64, 3, 61, 130] {
+        for same_node_id in [false, true] {
+            for late in [0i64, 1, 3] {
+                sup.push(SupersededCase { age, same_node_id, late });
+            }
+        }
+    }
+    sweep_list(ctx, "superseded_connection", &sup, SweepOpts { chunk: 1, ..Default::default() }, run_superseded);
+    sweep_list(ctx, "configured_names", &name_cases(), SweepOpts { chunk: 8, trivial_classes: vec![0], ..Default::default() }, run_names);
     let mut meshes = vec![];
     for mode in ["router", "switch"] {
         for pick in 0..tier.pick(12, 48) {
@@ -463,6 +620,8 @@ pub fn replay(family: &str, case: &Value) -> Option<CaseResult> {
     match family {
         "core_pairs" => replay_with::<CoreCase>(case, run_core),
         "negotiated" => replay_with::<NegCase>(case, run_neg),
+        "configured_names" => replay_with::<NegCase>(case, run_names),
+        "superseded_connection" => replay_with::<SupersededCase>(case, run_superseded),
         "mesh_injection" => replay_with::<MeshCase>(case, |c| run_mesh(c, Tier::Thorough)),
         "unestablished_sender" => replay_with::<PendingCase>(case, run_pending),
         _ => None,
